@@ -73,31 +73,52 @@ func (r *RefRecorder) OnKeyRef(s []byte) error    { return r.add(Ev{K: KKeyRef, 
 type Counter struct {
 	Events int
 	Bytes  int
+	// Limit > 0: every event beyond Limit is refused with ErrTooManyEvents, so
+	// that an amplifying input cannot keep the process busy.
+	Limit int
+}
+
+// ErrTooManyEvents is returned by a Counter whose Limit was exceeded.
+var ErrTooManyEvents = errTooMany{}
+
+type errTooMany struct{}
+
+func (errTooMany) Error() string { return "harness: event limit exceeded" }
+
+func (c *Counter) ev() error {
+	c.Events++
+	if c.Limit > 0 && c.Events > c.Limit {
+		return ErrTooManyEvents
+	}
+	return nil
 }
 
 var _ structform.Visitor = (*Counter)(nil)
 var _ structform.StringRefVisitor = (*Counter)(nil)
 
-func (c *Counter) OnObjectStart(int, structform.BaseType) error { c.Events++; return nil }
-func (c *Counter) OnObjectFinished() error                      { c.Events++; return nil }
-func (c *Counter) OnKey(s string) error                         { c.Events++; c.Bytes += len(s); return nil }
-func (c *Counter) OnKeyRef(s []byte) error                      { c.Events++; c.Bytes += len(s); return nil }
-func (c *Counter) OnArrayStart(int, structform.BaseType) error  { c.Events++; return nil }
-func (c *Counter) OnArrayFinished() error                       { c.Events++; return nil }
-func (c *Counter) OnNil() error                                 { c.Events++; return nil }
-func (c *Counter) OnBool(bool) error                            { c.Events++; return nil }
-func (c *Counter) OnString(s string) error                      { c.Events++; c.Bytes += len(s); return nil }
-func (c *Counter) OnStringRef(s []byte) error                   { c.Events++; c.Bytes += len(s); return nil }
-func (c *Counter) OnInt8(int8) error                            { c.Events++; return nil }
-func (c *Counter) OnInt16(int16) error                          { c.Events++; return nil }
-func (c *Counter) OnInt32(int32) error                          { c.Events++; return nil }
-func (c *Counter) OnInt64(int64) error                          { c.Events++; return nil }
-func (c *Counter) OnInt(int) error                              { c.Events++; return nil }
-func (c *Counter) OnByte(byte) error                            { c.Events++; return nil }
-func (c *Counter) OnUint8(uint8) error                          { c.Events++; return nil }
-func (c *Counter) OnUint16(uint16) error                        { c.Events++; return nil }
-func (c *Counter) OnUint32(uint32) error                        { c.Events++; return nil }
-func (c *Counter) OnUint64(uint64) error                        { c.Events++; return nil }
-func (c *Counter) OnUint(uint) error                            { c.Events++; return nil }
-func (c *Counter) OnFloat32(float32) error                      { c.Events++; return nil }
-func (c *Counter) OnFloat64(float64) error                      { c.Events++; return nil }
+func (c *Counter) OnObjectStart(int, structform.BaseType) error { return c.ev() }
+func (c *Counter) OnObjectFinished() error                      { return c.ev() }
+func (c *Counter) OnKey(s string) error                         { c.Bytes += len(s); return c.ev() }
+func (c *Counter) OnKeyRef(s []byte) error                      { c.Bytes += len(s); return c.ev() }
+func (c *Counter) OnArrayStart(int, structform.BaseType) error  { return c.ev() }
+func (c *Counter) OnArrayFinished() error                       { return c.ev() }
+func (c *Counter) OnNil() error                                 { return c.ev() }
+func (c *Counter) OnBool(bool) error                            { return c.ev() }
+func (c *Counter) OnString(s string) error                      { c.Bytes += len(s); return c.ev() }
+func (c *Counter) OnStringRef(s []byte) error                   { c.Bytes += len(s); return c.ev() }
+func (c *Counter) OnInt8(int8) error                            { return c.ev() }
+func (c *Counter) OnInt16(int16) error                          { return c.ev() }
+func (c *Counter) OnInt32(int32) error                          { return c.ev() }
+func (c *Counter) OnInt64(int64) error                          { return c.ev() }
+func (c *Counter) OnInt(int) error                              { return c.ev() }
+func (c *Counter) OnByte(byte) error                            { return c.ev() }
+func (c *Counter) OnUint8(uint8) error                          { return c.ev() }
+func (c *Counter) OnUint16(uint16) error                        { return c.ev() }
+func (c *Counter) OnUint32(uint32) error                        { return c.ev() }
+func (c *Counter) OnUint64(uint64) error                        { return c.ev() }
+func (c *Counter) OnUint(uint) error                            { return c.ev() }
+func (c *Counter) OnFloat32(float32) error                      { return c.ev() }
+func (c *Counter) OnFloat64(float64) error                      { return c.ev() }
+
+// VisitorIface is structform.Visitor (re-exported for harness signatures).
+type VisitorIface = structform.Visitor
